@@ -125,4 +125,7 @@ void noise_start(void);
 void noise_stop(void);
 void noise_publish(int desc, const cfg_t *c, const stripe_t *s);   /* the main thread's current instance + stripe */
 void noise_unpublish(void);                                         /* returns after the noise thread let go of it */
+/* ---- populations of instances (histories of create / destroy over a small pool of shapes, every live instance used after every step) ---- */
+int  lec_use_instance(const cfg_t *c, int d, uint64_t seed, const char *what);
+void lec_population(const cfg_t *pool, int npool, const char *tag, int exh_len, int walks, int walk_len);
 #endif
